@@ -21,8 +21,8 @@ ASSUMPTIONS = [
 ]
 
 TOTALS = ["eager", "lazy", "reflect", "normalize", "sequential", "moment_matching"]
-ALPHABET = TOTALS + ["memoize", "memoize_shared", "Memoize_lazy", "user", "user2", "tape", "montecarlo"]
-QUICK_ALPHABET = ["eager", "lazy", "normalize", "sequential", "memoize", "memoize_shared", "Memoize_lazy", "user", "tape", "montecarlo", "reflect"]
+ALPHABET = TOTALS + ["memoize", "memoize_shared", "Memoize_lazy", "user", "user2", "tape", "tape_shared", "montecarlo", "montecarlo_shared"]
+QUICK_ALPHABET = ["eager", "lazy", "normalize", "sequential", "memoize", "memoize_shared", "Memoize_lazy", "user", "tape", "tape_shared", "montecarlo_shared", "reflect"]
 WORKS = ["subs", "reduce", "optimizer", "reinterpret", "adjoint", "einsum", "inner_memoize", "sample", "lambda", "user_term", "mc_integrate"]
 EXC_TYPES = ["MemoryError", "RecursionError", "FloatingPointError", "NotImplementedError", "ValueError"]
 
@@ -172,6 +172,8 @@ class _Env:
         self.inj.install()
         self.base_stack = seams.stack_snapshot()
         self.shared_cache = {}
+        self.shared_tape = None
+        self.shared_mc = None
         self.counter = 0
         user = DispatchedInterpretation("user")
         user2 = DispatchedInterpretation("user2")
@@ -228,8 +230,20 @@ class _Env:
             return self.user2
         if kind == "tape":
             return self.funsor.adjoint.AdjointTape()
+        if kind == "tape_shared":
+            # one tape object used for many blocks (context objects are reusable);
+            # never nested inside itself
+            if self.shared_tape is None:
+                self.shared_tape = self.funsor.adjoint.AdjointTape()
+            if any(s is self.shared_tape for top in self.funsor.interpreter._STACK for s in getattr(top, "subinterpretations", ())):
+                return self.funsor.adjoint.AdjointTape()
+            return self.shared_tape
         if kind == "montecarlo":
             return self.funsor.montecarlo.MonteCarlo()
+        if kind == "montecarlo_shared":
+            if self.shared_mc is None:
+                self.shared_mc = self.funsor.montecarlo.MonteCarlo()
+            return self.shared_mc
         raise KeyError(kind)
 
     def fresh_tensor(self, names=("i",), sizes=(3,)):
@@ -246,6 +260,7 @@ class _Env:
 
 
 def sem_enter(kind, top):
+    kind = {"tape_shared": "tape", "montecarlo_shared": "montecarlo"}.get(kind, kind)
     if kind in TOTALS:
         return ("total", kind)
     if kind in ("memoize", "memoize_shared"):
@@ -347,6 +362,7 @@ class Run:
         env = self.env
         top = interpreter.get_interpretation()
         I = env.funsor.interpretations
+        kind = {"tape_shared": "tape", "montecarlo_shared": "montecarlo"}.get(kind, kind)
         if kind in TOTALS:
             ok = top is getattr(I, kind)
         elif kind in ("memoize", "memoize_shared"):
@@ -579,7 +595,7 @@ class Run:
             pushed = self.check_pushed(kind, prev_top, "enter %s@%d" % (kind, self.pos))
             sem = sem_enter(kind, self.top_sem())
             tape = None
-            if kind == "tape":
+            if kind in ("tape", "tape_shared"):
                 tape = pushed.subinterpretations[0]
             self.model.append((sem, pushed, tape, kind))
             self.check_stack("entered %s" % kind)
